@@ -6,6 +6,11 @@
     ogrid <c> <min> <max>        sizing of `compute_overlapping_grid` along one axis without shift:
                                  `ok <origin> <n_cells>` (model only; compared by tools/props/c16.py with
                                  the bounding box of the map `grisubal none …` returns)
+    gcross <cx> <cy> <ox> <oy> <nx> x1 y1 x2 y2
+                                 step 1 of the kernel for the segment (x1,y1) → (x2,y2) on the grid with that
+                                 origin / cell lengths: the crossing points in the order of the segment,
+                                 `ok n | x y | …` (implementation: the vertices of the map `grisubal none …`
+                                 returned that lie inside the segment); `gcrossd …` (model only): `dart t s ; …`
     ancinit                      the 2-D session map gets the three anchor storages (6, 7, 8)
     wanchor v|e|f <id> <A><k>    `force_write_attribute` of `VertexAnchor|EdgeAnchor|FaceAnchor`
                                  (`A` ∈ N C S B as far as the kind has the variant); reply `ok`
@@ -77,6 +82,23 @@ def topCapture (s : Sess) (toks : List String) : Option (Sess × String) :=
           if c ≤ 0 then some (s, "bad-op")
           else some (s, s!"ok {ratStr (gridOrigin mn c 0)} {gridCells mn mx c 0}")
       | _, _, _ => some (s, "bad-op")
+  | [cmd, cx, cy, ox, oy, nx, x1, y1, x2, y2] =>
+      if cmd ≠ "gcross" ∧ cmd ≠ "gcrossd" then none else
+      match parseRat cx, parseRat cy, parseRat ox, parseRat oy, nx.toNat?, parseRat x1, parseRat y1,
+          parseRat x2, parseRat y2 with
+      | some cx, some cy, some ox, some oy, some nx, some x1, some y1, some x2, some y2 =>
+          if cx ≤ 0 ∨ cy ≤ 0 then some (s, "bad-op") else
+          let g : GGrid := { ox := ox, oy := oy, cx := cx, cy := cy, nx := nx }
+          let cs := crossingsOf g epsF64 (x1, y1) (x2, y2)
+          if cmd = "gcross" then
+            let pts := cs.map fun c =>
+              let p := segPoint (x1, y1) (x2, y2) c.s
+              s!"{ratStr p.1} {ratStr p.2}"
+            if pts.isEmpty then some (s, "ok 0")
+            else some (s, s!"ok {pts.length} | " ++ " | ".intercalate pts)
+          else
+            some (s, "ok " ++ " ; ".intercalate (cs.map fun c => s!"{c.dart} {ratStr c.t} {ratStr c.s}"))
+      | _, _, _, _, _, _, _, _, _ => some (s, "bad-op")
   | ["ancinit"] =>
       if s.dim ≠ 2 then some (s, "bad-op") else
       let mask := s.mask ||| 224
